@@ -84,7 +84,7 @@ Proof. intros H0 H1. rewrite (shape_hashed _ _ _ _ _ H0 H1). reflexivity. Qed.
 
 (* scope of the threshold: only hash-threshold records change it, for everything after *)
 Section Scope.
-  Variable substitute : bool -> list (str * str) -> str -> str + str.
+  Variable substitute : bool -> list (str * str) -> str -> subres.
   Variable sc : script.
 
   Definition state_after (st : rstate) (w : world) (r : record) : rstate :=
@@ -103,18 +103,18 @@ Section Scope.
   Proof.
     unfold state_after, apply_record.
     destruct r; cbn; try reflexivity.
-    - destruct (may_substitute substitute st true sql); [|reflexivity].
+    - destruct (may_substitute substitute st true sql); [|reflexivity|reflexivity].
       pose proof (get_conn_cfg st w c) as G.
       destruct (get_conn sc st w c) as [[[ev st1] w1] [id|]]; cbn in G; [|now rewrite G].
       destruct (should_skip (labels st1) (engine sc) conds); [now rewrite G|].
       destruct (db_request sc w1 id). now rewrite G.
-    - destruct (may_substitute substitute st true sql); [|reflexivity].
+    - destruct (may_substitute substitute st true sql); [|reflexivity|reflexivity].
       pose proof (get_conn_cfg st w c) as G.
       destruct (get_conn sc st w c) as [[[ev st1] w1] [id|]]; cbn in G; [|now rewrite G].
       destruct (should_skip (labels st1) (engine sc) conds); [now rewrite G|].
       destruct (db_request sc w1 id). now rewrite G.
     - destruct (should_skip (labels st) [] conds); [reflexivity|].
-      destruct (may_substitute substitute st false cmd); [|reflexivity].
+      destruct (may_substitute substitute st false cmd); [|reflexivity|reflexivity].
       destruct (sys_request sc w). reflexivity.
     - destruct c; reflexivity.
   Qed.
